@@ -44,7 +44,10 @@ def split_marks(text):
 def a_num(rng):
     r = rng.random()
     if r < 0.5:
-        return str(rng.choice([0, 1, 2, 10, 255, 256, 1000, 32767, 49152, 63999, rng.randrange(100000)]))
+        v = str(rng.choice([0, 1, 2, 10, 255, 256, 1000, 32767, 49152, 63999, rng.randrange(100000)]))
+        if rng.random() < 0.06:
+            v = '0' * rng.choice([1, 2]) + v
+        return v
     if r < 0.7:
         return f"{rng.randrange(1000)}.{rng.randrange(100)}"
     if r < 0.8:
@@ -239,7 +242,14 @@ I_SVARS = ['A$', 'B$', 'NAME$']
 
 
 def i_num(rng):
-    return str(rng.choice([0, 1, 2, 10, 255, 256, 1000, 32767, rng.randrange(32768)]))
+    v = str(rng.choice([0, 1, 2, 10, 255, 256, 1000, 32767, rng.randrange(32768)]))
+    r = rng.random()
+    if r < 0.08:
+        v = '0' * rng.choice([1, 2]) + v                  # leading zeros
+    elif r < 0.12 and len(v) > 1:
+        k = rng.randrange(1, len(v))
+        v = v[:k] + ' ' + v[k:]                           # a blank inside the number (the machine ignores it)
+    return v
 
 
 def i_expr(rng, depth=0):
